@@ -832,6 +832,31 @@ theorem ufs_at_fft_spacing_is_fft_route (e : R → V) (he : ∀ a b, e (a + b) =
   have e0 : e 0 = 1 := by simpa using hint 0
   simp [e0]
 
+/-- the routes agree at the same physical place IN 2-D, norms included: element `[k',l']` of `focus_fixed_sampling` (model
+`fixedSampling`, any requested `dx_out`, no shift) and element `[k,l]` of the FFT route (C01's model of
+`fftshift(fft2(ifftshift(pad2d(x))), 'ortho')` with the pad offset of the current source) whose physical coordinates coincide —
+x through the REPORTED spacing, y through the true axis-0 spacing `λf/(M' dx)` (the reported one iff the padded array is square,
+`fft_dx_axis0_iff_square`) — hold the same value up to the two routes' norms -/
+theorem routes_agree_2d (e : R → V) (he : C01.IsChar e) (nrm : R → V) (ofR : R → V) (sqrt : R → R)
+    (m n M N M' N' : Nat) (hm : m ≤ M') (hn : n ≤ N') (hm0 : (m : R) ≠ 0) (hn0 : (n : R) ≠ 0)
+    (dx lam efl dxo : R) (f : Array (Array V)) (k l k' l' : Nat) (hk : k < M') (hl : l < N')
+    (hdx : dx ≠ 0) (hlam : lam ≠ 0) (hf : efl ≠ 0) (hd : dxo ≠ 0)
+    (hy : coord M k' * dxo = coord M' k * (lam * efl / ((M' : R) * dx)))
+    (hx : coord N l' * dxo = coord N' l * focusDx dx (M' : R) (N' : R) lam efl) :
+    (nrm (1 / (M' : R)) * nrm (1 / (N' : R)))
+        * fixedSampling e ofR sqrt m n M N dx efl lam dxo 0 0 (Model.C01.rd2 f) k' l'
+      = ofR (sqrt (dx * dxo / (lam * efl)) * sqrt (dx * dxo / (lam * efl)))
+        * Model.C01.rd2 (Model.C01.fftRoute2 e nrm (m, n) (M', N') (padLo (m : Int) (M' : Int), padLo (n : Int) (N' : Int)) f) k l := by
+  rw [fixedSampling_samples_F2 e he.add ofR sqrt m n M N dx efl lam dxo 0 0 _ k' l' hm0 hn0 hdx hf hlam hd,
+    fft_route_2d_samples_F2 e he nrm m n M' N' hm hn dx lam efl f k l hk hl hdx hlam hf]
+  simp only [zero_div, zero_mul, neg_zero, he.zero, sub_zero, mul_one, hx, hy]
+  ring
+
+/-- non-vacuity of the coordinate hypotheses of `routes_agree_2d` (exact rationals): on a square 8 × 8 padded array the true axis-0
+spacing and the reported spacing are both 25/2, so `dx_out = 25/2`, `M = M'`, `N = N'`, `k' = k`, `l' = l` satisfies them -/
+example : focusDx (1/2 : ℚ) 8 8 (1/2) 100 = 25 / 2 ∧ (1/2 : ℚ) * 100 / ((8 : ℚ) * (1/2)) = 25 / 2 := by
+  constructor <;> norm_num [Generated.C03.focusDx, Generated.C03.pupilToPsf, Model.C03.pupilToPsf, Model.C03.focusDx]
+
 end routes
 
 section driver
